@@ -279,6 +279,7 @@ func c16Items() []c16Item {
 		{b: pack(&knxnet.RoutingInd{Payload: &cemi.LRawInd{LRaw: cemi.LRaw{9, 8, 7, 6, 5, 4, 3, 2, 1}}}), wellUDP: true, wellTCP: true, name: "RoutingInd-raw"},
 		{b: pack(&knxnet.TunnelReq{Channel: 2, SeqNumber: 5, Payload: c12FullFrame(1, c12Shape{254, 0})}), wellUDP: true, wellTCP: true, name: "TunnelReq-254-octet-payload"},
 		{b: pack(&knxnet.TunnelReq{Channel: 2, SeqNumber: 6, Payload: c12FullFrame(2, c12Shape{254, 255})}), wellUDP: true, wellTCP: true, name: "TunnelReq-largest-frame-529-octets"},
+		{b: fr(0x0999, "0102030405060708090a"), wellUDP: true, wellTCP: true, name: "service-type-the-library-does-not-decode"},
 		{b: fs[1], foreign: true, wellTCP: true, name: "TunnelRes-from-foreign-source"},
 		{b: fr(0x0206, ""), name: "ConnRes-empty-body"},
 		{b: fr(0x0206, "05"), name: "ConnRes-1-octet-body"},
